@@ -68,6 +68,12 @@ def vm_slice_obligation(prop="C02"):
         c["unwind"] = 30
         c["strength"] = "B(source string length <= 3, no NUL inside; index over the full int64 range%s)" % (", out of range" if sfx else ", in range")
         obs.append(c)
+    for nm, op in (("STR_EQ", "STR_EQ"), ("EQs", "EQ"), ("NEs", "NE")):
+        e = vmstep.step(prop, "%s.vm.%s" % (prop, nm), "h_c02_streq", op, must_have=[r"C02\.vm STR_EQ", r"COVER"], timeout=900, witness=None)
+        e["defines"].update({"VERIF_M0": 2, "VERIF_M1": 2, "VERIF_M2": 1, "VERIF_STACK_SIZE": 5})
+        e["unwind"] = 30
+        e["strength"] = "B(strings of <= 3 bytes; cached hash abstracted to an arbitrary function of the content)"
+        obs.append(e)
     return obs
 
 
@@ -79,6 +85,15 @@ def cg_obligations(prop="C02"):
                         defines={"VERIF_LOGIC_OP": tok}, include_repo=["src"], unwind=14, object_bits=10,
                         strength="X(operator) on literal operands (L: bool literal of arbitrary value, R: marker literal); code offset pinned",
                         functions=["compile_expr[AST_PREFIX_OP and/or]", "emit_op", "patch_jump"], must_have=[r"C02\.cg", r"COVER"],
+                        min_checks=20, timeout=900, weight=30))
+    BIN = {"add": ("TOKEN_PLUS", "OP_ADD"), "sub": ("TOKEN_MINUS", "OP_SUB"), "mul": ("TOKEN_STAR", "OP_MUL"), "div": ("TOKEN_SLASH", "OP_DIV"),
+           "mod": ("TOKEN_PERCENT", "OP_MOD"), "eq": ("TOKEN_EQ", "OP_EQ"), "ne": ("TOKEN_NE", "OP_NE"), "lt": ("TOKEN_LT", "OP_LT"),
+           "le": ("TOKEN_LE", "OP_LE"), "gt": ("TOKEN_GT", "OP_GT"), "ge": ("TOKEN_GE", "OP_GE")}
+    for nm, (tok, opc) in BIN.items():
+        obs.append(dict(id="%s.cg.order.%s" % (prop, nm), prop=prop, harness="harness/cg_logic_h.c", entry="h_order",
+                        defines={"VERIF_BIN_TOKEN": tok, "VERIF_BIN_OPCODE": opc}, include_repo=["src"], unwind=14, object_bits=10,
+                        strength="X(operator) on marker literal operands; code offset pinned",
+                        functions=["compile_expr[AST_PREFIX_OP binary]", "emit_op"], must_have=[r"C02\.cg\.order", r"COVER"],
                         min_checks=20, timeout=900, weight=30))
     return obs
 
